@@ -12,5 +12,5 @@ HARNESSES = [
     dict(name="blk_dedup", file="blk_dedup.c", label="bounded(blocks<=4)", timeout=100,
          fp={"truncate": "stub_truncate", "destroy": "stub_unreachable_destroy",
              "get_size": "stub_unreachable_get_size", "write_at": "stub_unreachable_write_at"},
-         cases=[dict(id="nb4", defines={"NB": 4}, unwind=5, tier="quick")]),
+         cases=[dict(id="u%df%d" % (u, f), defines={"NB": 6, "USED": u, "FS": f}, unwind=7, tier="quick") for u,f in ((6,3),(6,2),(5,1),(4,2))]),
 ]
